@@ -92,13 +92,14 @@ namespace {
 
 [[nodiscard]] std::optional<StrRange>
 NextReference(const std::string_view refStr, const StrPos start = 0) noexcept {
-  if (const auto refStart = ReferenceStart(refStr, start); refStart == UTF8End(refStr)) {
-    return std::nullopt;
-  } else if (const auto refEnd = ReferenceEnd(refStr, refStart); refEnd == UTF8End(refStr)) {
-    return std::nullopt;
-  } else {
-    return StrRange{ refStart.Position() - 1, refEnd.Position() + 1 };
+  // Note: unterminated marker is plain text and should not hide references that follow it
+  for (auto refStart = ReferenceStart(refStr, start); refStart != UTF8End(refStr);
+       refStart = ReferenceStart(refStr, refStart.Position())) {
+    if (const auto refEnd = ReferenceEnd(refStr, refStart); refEnd != UTF8End(refStr)) {
+      return StrRange{ refStart.Position() - 1, refEnd.Position() + 1 };
+    }
   }
+  return std::nullopt;
 }
 
 } // namespace
